@@ -6,6 +6,7 @@ evaluates the property predicate on the real outputs, the extracted Coq model (M
 cells and the observables (ack, attachment role, the specification's verdict) are diffed."""
 import json
 import os
+import re
 
 import vlib
 
@@ -13,7 +14,7 @@ IDS = ["none", "half", "listen", "target", "stranger"]
 MIDS = ["none", "tunnel", "other"]
 SECRETS = ["none", "right", "wrong", "prefix1", "prefixall", "suffix", "plus", "case", "onechar", "other"]
 BOUNDARY = SECRETS[3:]
-MSTATES = ["active", "revoked", "expired", "inactive", "missing"]
+MSTATES = ["active", "revoked", "expired", "inactive", "missing", "exp25s", "exp10s", "exp2s", "exp1ms", "soon60s"]
 TSTATES = ["none", "waiting", "served", "remote"]
 
 # witnesses of the recorded defects of the tree as found (Proofs/TunnelOpen.v w_cell_*): they also tell which tree this is
@@ -80,7 +81,7 @@ def load_corpus():
 # ------------------------------------------------------------------------------------------------------------------
 WHO = ["none", "half", "L", "T", "S", "X"]
 HMID = ["none", "m1", "m2"]
-HSTATES = ["active", "revoked", "expired", "inactive", "missing"]
+HSTATES = MSTATES
 
 
 def O(who, mid, secret, tun=0):
@@ -148,7 +149,7 @@ def directed_histories():
     # (a) accepted open -> the mapping becomes invalid -> the same client opens again (new connection, both credential
     #     paths), immediately and after a short delay; also the target on the bridge that already exists
     for first in legit_src:
-        for st in HSTATES[1:]:
+        for st in [x for x in HSTATES[1:] if x != "soon60s"]:
             for again in legit_src + [O("T", "m1", "right")]:
                 a2 = dict(again, tun=1)
                 out.append(H(False, first, SM("m1", st), a2))
@@ -157,6 +158,8 @@ def directed_histories():
             out.append(H(False, first, O("T", "m1", "right"), SM("m1", st), O("T", "m1", "right"), O("L", "m1", "none", 1)))
     for st in HSTATES[1:4]:   # ... and back to active: must work again
         out.append(H(False, O("L", "m1", "none"), SM("m1", st), O("L", "m1", "none", 1), SM("m1", "active"), O("L", "m1", "none", 1)))
+    # expiring in a minute is NOT expired: everything still works
+    out.append(H(False, O("L", "m1", "none"), SM("m1", "soon60s"), O("L", "m1", "none", 1), O("T", "m1", "right", 1), O("T", "m1", "right")))
     # the same on a node with a routing table (the second open of a target parks instead of failing at once)
     for st in HSTATES[1:]:
         out.append(H(True, O("L", "m1", "none"), SM("m1", st), O("L", "m1", "none", 1), O("T", "m1", "right", 1)))
@@ -213,6 +216,82 @@ def race_cases(rng, thorough):
     return out
 
 
+def XO(node, who, mid, secret, tun=0, gate=False):
+    return {"op": "open", "node": node, "who": who, "mid": mid, "secret": secret, "tun": tun, "gate": gate}
+
+
+def XR(i):
+    return {"op": "release", "step": i}
+
+
+X_SOURCES = [("L", "m1", "right"), ("L", "m1", "none"), ("S", "m2", "right"), ("S", "m2", "none"), ("L", "m2", "right"),
+             ("S", "m1", "none"), ("L", "m1", "prefixall"), ("none", "m1", "none")]
+X_REMOTES = [("T", "m1", "right"), ("X", "m2", "right"), ("X", "m1", "right"), ("T", "m2", "right"), ("T", "m1", "prefix1"),
+             ("none", "m2", "none"), ("X", "m2", "other")]
+
+
+def xrace_case(p, q, r, gated):
+    """two source-side requests P, Q for ONE tunnel id on node A (gated: P parked after its lookups while Q runs), then a
+    target-side request R on node B"""
+    if gated:
+        steps = [XO("A", *p, 0, True), XO("A", *q), XR(0), XO("B", *r)]
+    else:
+        steps = [XO("A", *p), XO("A", *q), XO("B", *r)]
+    return {"mode": "xnode", "tids": ["short"], "steps": steps, "shape": {"p": p, "q": q, "r": r, "gated": gated}}
+
+
+def xnode_cases(rng, thorough):
+    directed = []
+    # the loser of the race for a tunnel id must not touch the record; then its own target arrives on the other node
+    for gated in (True, False):
+        directed.append(xrace_case(("S", "m2", "right"), ("L", "m1", "right"), ("X", "m2", "right"), gated))
+        directed.append(xrace_case(("S", "m2", "none"), ("L", "m1", "none"), ("X", "m2", "right"), gated))
+        directed.append(xrace_case(("L", "m1", "right"), ("S", "m2", "right"), ("T", "m1", "right"), gated))
+        directed.append(xrace_case(("L", "m1", "right"), ("S", "m2", "right"), ("X", "m2", "right"), gated))
+        directed.append(xrace_case(("L", "m1", "right"), ("L", "m1", "right"), ("T", "m1", "right"), gated))
+    allx = [xrace_case(p, q, r, g) for p in X_SOURCES for q in X_SOURCES for r in X_REMOTES for g in (True, False)]
+    if not thorough:
+        rng.shuffle(allx)
+        allx = allx[:160]
+    # tunnel ids that are prefixes of one another around the 16-byte frame-header id: victim tunnel #0, the attacker's own
+    # legitimate tunnel #1 = id #0 + "-x" on the same node, the attacker's target arrives on the other node for #1
+    ids = []
+    for shape in ("16", "15", "17", "short", "long"):
+        for first in (0, 1):
+            v, a = XO("A", "L", "m1", "right", 0), XO("A", "S", "m2", "right", 1)
+            opens = [v, a] if first == 0 else [a, v]
+            ids.append({"mode": "xnode", "tids": [shape, "+x"], "steps": opens + [XO("B", "X", "m2", "right", 1), XO("B", "T", "m1", "right", 0)]})
+            ids.append({"mode": "xnode", "tids": [shape, "+x"], "steps": opens + [XO("B", "T", "m1", "right", 0), XO("B", "X", "m2", "right", 1)]})
+            ids.append({"mode": "xnode", "tids": [shape, "+x"], "steps": opens + [XO("B", "X", "m2", "right", 0), XO("B", "T", "m1", "right", 1)]})
+    # legitimate cross-node flows in both directions, and boundary secrets / mapping states are NOT softened by the extra hop
+    legit = [{"mode": "xnode", "tids": ["long"], "steps": [XO("A", "L", "m1", "right"), XO("B", "T", "m1", "right")]},
+             {"mode": "xnode", "tids": ["short"], "steps": [XO("B", "S", "m2", "none"), XO("A", "X", "m2", "right")]},
+             {"mode": "xnode", "tids": ["16"], "steps": [XO("B", "L", "m1", "none"), XO("A", "T", "m1", "right"), XO("A", "X", "m2", "right")]}]
+    for k in BOUNDARY + ["wrong", "none"]:
+        legit.append({"mode": "xnode", "tids": ["short"], "steps": [XO("A", "L", "m1", "right"), XO("B", "T", "m1", k), XO("B", "T", "m1", "right")]})
+    return directed + ids + legit + allx
+
+
+def xnode_str(c):
+    def one(s):
+        if s["op"] == "release":
+            return "release(step %d)" % s["step"]
+        return "%sopen@%s(%s,%s,%s,id#%d)" % ("GATED " if s.get("gate") else "", s["node"], s["who"], s["mid"], s["secret"], s["tun"])
+    return "two nodes, tunnel ids %s: %s" % (c["tids"], "; ".join(one(s) for s in c["steps"]))
+
+
+def xnode_value(vf_si, c, o):
+    sh = c.get("shape")
+    if not sh or o.get("class") == "setup":
+        return None
+    enc = lambda r: [WHO.index(r[0]), HMID.index(r[1]), SECRETS.index(r[2])]
+    t = o["tuns"][0]
+    r_idx = len(c["steps"]) - 1
+    return [list(vf_si), [97, False], enc(sh["p"]), enc(sh["q"]), enc(sh["r"]), [sh["gated"]],
+            [t["a"][1] if t["a"][0] else 0, t["a"][2] if t["a"][0] else 0, t["rec"][2] if t["rec"][0] else 0,
+             1 if o["opens"][r_idx][1] == 4 else 0]]
+
+
 P_RACE = {"mode": "race", "a": dict(who="L", mid="m1", secret="right"), "b": dict(who="X", mid="m2", secret="right"), "gate": 0}
 K_RACE = "race-late-attach-unvalidated"
 
@@ -248,7 +327,7 @@ def random_history(rng, routing):
             secret = rng.choice(["none", "right", "right", "right", "wrong"] + BOUNDARY)
             steps.append(O(who, mid, secret, rng.choice([0, 0, 0, 1])))
         elif k < 0.82:
-            steps.append(SM(rng.choice(["m1", "m1", "m2"]), rng.choice(["active", "revoked", "expired", "inactive", "missing", "revoked"])))
+            steps.append(SM(rng.choice(["m1", "m1", "m2"]), rng.choice(["active", "revoked", "expired", "inactive", "missing", "revoked", "exp25s", "exp10s", "exp2s", "exp1ms", "soon60s"])))
         elif k < 0.90 and routing:
             steps.append(RT(rng.choice([0, 0, 1]), rng.choice(["other", "other", "none"]), rng.choice(["m1", "m2"])))
         elif k < 0.96:
@@ -424,7 +503,8 @@ def run(ctx, only_cases=None):
     if only_cases is not None:
         hists = [c for c in only_cases if c.get("mode") == "hist"]
         races = [P_RACE] + [c for c in only_cases if c.get("mode") == "race"]
-        cases = list(PROBES) + [c for c in only_cases if c.get("mode") not in ("hist", "race")]
+        xcases = [c for c in only_cases if c.get("mode") == "xnode"]
+        cases = list(PROBES) + [c for c in only_cases if c.get("mode") not in ("hist", "race", "xnode")]
     else:
         table = all_cells()
         rng.shuffle(table)                       # arrival order varies with the seed: cells must not influence one another
@@ -436,7 +516,8 @@ def run(ctx, only_cases=None):
                 cases += t2
         corpus_h = [c for c in cases if c.get("mode") == "hist"]
         races = [P_RACE] + [c for c in cases if c.get("mode") == "race"] + race_cases(rng, thorough)
-        cases = [c for c in cases if c.get("mode") not in ("hist", "race")]
+        xcases = [c for c in cases if c.get("mode") == "xnode"] + xnode_cases(rng, thorough)
+        cases = [c for c in cases if c.get("mode") not in ("hist", "race", "xnode")]
         hists = corpus_h + directed_histories()
         hists += [random_history(rng, False) for _ in range(1500 if thorough else 350)]
         hists += [random_history(rng, True) for _ in range(400 if thorough else 110)]
@@ -449,6 +530,7 @@ def run(ctx, only_cases=None):
     hists = h_local + h_route
     houts = run_sharded(binary, h_local, 2) + run_sharded(binary, h_route, 12 if thorough else 6)
     routs = vlib.run_harness(binary, races[:1], timeout=300) + run_sharded(binary, races[1:], 4)
+    xouts = run_sharded(binary, [{k: v for k, v in c.items() if k != "shape"} for c in xcases], 8 if thorough else 4)
     late_defect = routs[0]["tgt"] == 2          # witness of the interleaving defect: B (mapping 2's target) is target of mapping 1's bridge
 
     def probe(p):
@@ -526,6 +608,18 @@ def run(ctx, only_cases=None):
         if len([k for k in reported if k.startswith("race:")]) < 3:
             reported.add(key)
             ctx.violation(key, "real SessionManager.HandlePacket, interleaving [%s]: %s" % (race_str(c), o["prop_msg"]), {"case": c, "observed": o})
+    # two-node scenarios: the predicate across nodes
+    xfail = 0
+    for c, o in zip(xcases, xouts):
+        if o["prop_ok"]:
+            continue
+        xfail += 1
+        nfail += 1
+        key = "xnode:" + o.get("class", "?") + ":" + re.sub(r"[^A-Za-z0-9]+", "_", xnode_str(c))[:110]
+        if len([k for k in reported if k.startswith("xnode:")]) < 3:
+            reported.add(key)
+            ctx.violation(key, "real two-node cluster (two SessionManagers, CrossNodeListener, dedicated TCP forward) [%s]: %s" % (xnode_str(c), o["prop_msg"]),
+                          {"case": {k: v for k, v in c.items() if k != "shape"}, "observed": o})
     for h, o in zip(hists, houts):
         for st, so in zip(h["steps"], o["steps"]):
             if st["op"] == "open" and so["registered"] != (st["who"] != "none"):
@@ -569,6 +663,24 @@ def run(ctx, only_cases=None):
                               "[%s]: model predicts [bridge mapping, source, target]=%s, observed %s; the interleaving theorems of Properties/C04.v no "
                               "longer speak about this code" % (not late_defect, race_str(rsrc[i][0]), rpred[i], [rsrc[i][1]["mid_end"], rsrc[i][1]["src"], rsrc[i][1]["tgt"]]),
                               {"case": rsrc[i][0], "observed": rsrc[i][1], "model": rpred[i]}, found_input=False)
+    except vlib.Broken as b:
+        broken = broken or b
+    xterms, xsrc = [], []
+    for c, o in zip(xcases, xouts):
+        v = xnode_value([vf, si], c, o) if o["prop_ok"] else None
+        if v is not None:
+            xterms.append(v)
+            xsrc.append((c, o))
+    xmism = []
+    try:
+        if xterms:
+            xres, xpred = vlib.model_eval("C04", xterms, predict=True)
+            xmism = [i for i, ok in enumerate(xres) if not ok]
+            for i in xmism[:2]:
+                ctx.violation("model-mismatch-two-node", "Corr/C04.check_cross: Model/TunnelCross.v and the real two-node cluster disagree on [%s]: model predicts "
+                              "[bridge mapping, bridge source, record mapping, R forwarded]=%s, observed %s; the cross-node theorem of Properties/C04.v no "
+                              "longer speaks about this code" % (xnode_str(xsrc[i][0]), xpred[i], xterms[i][6]),
+                              {"case": {k: v for k, v in xsrc[i][0].items() if k != "shape"}, "observed": xsrc[i][1], "model": xpred[i]}, found_input=False)
     except vlib.Broken as b:
         broken = broken or b
     terms = [[[vf, si], cell_codes(c), [o["ack"], o["role"], o["entitled"]]] for c, o in zip(cases, outs)]
@@ -623,7 +735,11 @@ def run(ctx, only_cases=None):
         o = probe(p)
         samples.append({"cell": p, "reads": describe(p), "observed": {k: o[k] for k in ("ack", "role", "got_bytes", "marker_at", "entitled", "prop_ok")}})
     ctx.coverage.update({
-        "evaluations": len(cases) + len(hists) + len(races), "distinct_nontrivial": len(nontrivial) + len(h_nontrivial), "exhaustive": only_cases is None,
+        "evaluations": len(cases) + len(hists) + len(races) + len(xcases), "distinct_nontrivial": len(nontrivial) + len(h_nontrivial), "exhaustive": only_cases is None,
+        "two_node": {"driven": len(xcases), "forwarded_across_nodes": sum(1 for o in xouts for r in o["opens"] if r[1] == 4),
+                     "cross_node_readers": sum(len(o["readers"] or []) for o in xouts), "gated_requests": sum(1 for c in xcases for st in c["steps"] if st.get("gate")),
+                     "model_vs_impl": len(xterms), "model_vs_impl_mismatches": len(xmism), "predicate_failures": xfail,
+                     "samples": [{"case": xnode_str(c), "observed": {k: o[k] for k in ("opens", "tuns", "readers")}} for c, o in list(zip(xcases, xouts))[:2]]},
         "interleavings": {"driven": len(races), "b_parked": sum(1 for o in routs if o["b_parked"]),
                           "parked_at_ack_write": sum(1 for c, o in zip(races, routs) if o["b_parked"] and c["gate"] == 0),
                           "both_attached_or_replaced": sum(1 for o in routs if o["src"] and o["tgt"]),
@@ -639,8 +755,8 @@ def run(ctx, only_cases=None):
                       "samples": [{"history": hist_str(h), "observed": [[x["ack"], x["role"], x["snap"]] for x in o["steps"]], "readers": o["readers"]}
                                   for h, o in list(zip(hists, houts))[:: max(1, len(hists) // 3)][:3]]},
         "rule": "the full table identity(5: none/half-handshaken/listen/target/stranger) x named mapping(3: none/the tunnel's/another one owned by "
-                "the requester) x secret(10) x resume token(2) x state of the named mapping(5) x tunnel state at arrival(4: no bridge / bridge "
-                "waiting locally / bridge already served / waiting on another node via the routing table) = 6000 cells (secret: none / right / unrelated / first character / all but last / all but first / right+1 / case flipped / one character changed / another mapping's secret), every one driven through "
+                "the requester) x secret(10) x resume token(2) x state of the named mapping(10) x tunnel state at arrival(4: no bridge / bridge "
+                "waiting locally / bridge already served / waiting on another node via the routing table) = 12000 cells (mapping state: active / revoked / expired an hour, 25 s, 10 s, 2 s, 1 ms ago / expiring in 60 s / inactive / missing; secret: none / right / unrelated / first character / all but last / all but first / right+1 / case flipped / one character changed / another mapping's secret), every one driven through "
                 "the real SessionManager.HandlePacket on fresh connections, mappings and tunnel ids of a fully wired server fixture (real "
                 "handshakes, real bridge, real routing table and dedicated cross-node connection to a fake peer node); witnesses and corpus "
                 "first, arrival order shuffled from VERIF_SEED (thorough: four orders). distinct = distinct cells; non-trivial = a tunnel "
@@ -666,6 +782,8 @@ def run(ctx, only_cases=None):
         "no-bridge cells run on a fixture without routing table (a legitimate target with no bridge anywhere otherwise polls the routing table for 10 s)",
         "concurrent TunnelOpen packets for the same tunnel id are serialised in the model (one open is atomic); histories in which two requests are parked on one tunnel id at once are checked by the predicate but not diffed (resolution order is the scheduler's)",
         "histories never touch a tunnel id again after its bridge was closed (the real lifecycle goroutine removes map and routing entries asynchronously) and never re-use a connection for a second TunnelOpen",
+        "two nodes: a real two-node cluster inside one process (two SessionManagers over one storage, real routing table, TunnelConnectionManager and CrossNodeListener over loopback TCP); node-to-node frames are trusted by design (the bridge node compares nothing), which is why the record/bridge agreement is checked as an invariant of its own",
+        "expiry boundary: the code reads time.Now() directly, so ExpiresAt is set 25 s / 10 s / 2 s / 1 ms before (or 60 s after) the moment the mapping is stored; the request follows within milliseconds",
         "interleavings: request A is atomic with respect to request B (B is parked at ONE point: its n-th storage read of its mapping, or its acknowledgement write), both orders; the model (Base/Threads) covers every schedule of any number of requests at the granularity lookup / create-attach",
         "a parked request is recognised by the harness as: success ack written, no routing record visible, call still inside HandlePacket after 120 ms",
     ]
